@@ -98,13 +98,13 @@ def gen(rng, tier, idx):
         return c06_split.gen_split(rng, tier, idx, _arrival_sched)
     if kind == 'layout':
         if rng.random() < 0.6:
-            c = c01.gen(rng, tier, idx)
+            c = c01.gen_base(rng, tier, idx)
             c['mgr'] = 'handler'
             # favour sets rich in equal-length alternative routes
             if rng.random() < 0.5 and len(c['shape']) >= 3:
                 c = _route_rich(rng, c)
         else:
-            c = c03.gen(rng, tier, idx)
+            c = c03._gen_plain(rng, tier, idx)
             c['mgr'] = 'swapper'
         c['kind'] = 'layout'
         c['salted'] = rng.random() < 0.7
@@ -114,13 +114,13 @@ def gen(rng, tier, idx):
         if rng.random() < 0.3:
             # Grid on the driver's LayoutSwapper (3-D): the coordinates gathered with the
             # blocks come from the swapper's current manager
-            c = c03.gen(rng, tier, idx)
+            c = c03._gen_plain(rng, tier, idx)
             while c['family'] != 'driver' or len(c['shape']) != 3:
-                c = c03.gen(rng, tier, idx)
+                c = c03._gen_plain(rng, tier, idx)
             c['mgr'] = 'swapper'
             c['layouts'] = [[n, o] for g in c['groups'] for n, o in g]
         else:
-            c = c01.gen(rng, tier, idx)
+            c = c01.gen_base(rng, tier, idx)
             c['mgr'] = 'handler'
         c['kind'] = 'minmax'
         c['ops'] = []
@@ -182,7 +182,7 @@ def gen(rng, tier, idx):
     which = idx % 3
     if which == 1:
         # the literal names the library itself uses
-        sub = c01.gen(rng, tier, idx)
+        sub = c01.gen_base(rng, tier, idx)
         nprocs = rng.choice([[2, 2], [1, 3], [3, 1], [2, 3]])
         std = [['flux_surface', [0, 3, 1, 2]], ['v_parallel', [0, 2, 1, 3]], ['poloidal', [3, 2, 1, 0]]]
         shape = cm.gen_shape(rng, 4, nprocs, [o for _, o in std])
@@ -190,12 +190,12 @@ def gen(rng, tier, idx):
         sub.update(nprocs=nprocs, P=int(np.prod(nprocs)), layouts=std, shape=shape, mgr='handler',
                    ops=[[a, b, bool(rng.random() < 0.5)] for a in names for b in names if a != b])
     elif which == 2:
-        sub = c03.gen(rng, tier, idx)
+        sub = c03._gen_plain(rng, tier, idx)
         while sub['family'] != 'driver':
-            sub = c03.gen(rng, tier, idx)
+            sub = c03._gen_plain(rng, tier, idx)
         sub['mgr'] = 'swapper'
     else:
-        sub = c01.gen(rng, tier, idx)
+        sub = c01.gen_base(rng, tier, idx)
         sub = _route_rich(rng, sub) if len(sub['shape']) >= 3 else sub
         sub['mgr'] = 'handler'
     return dict(kind='hashseed', P=sub['P'], sub=sub,
